@@ -11,6 +11,8 @@ Fixpoint lit (s : string) : text :=
   | String a r => N_of_ascii a :: lit r
   end.
 
+Arguments lit _%string_scope.
+
 Definition ceqb (a b : N) : bool := N.eqb a b.
 Fixpoint teqb (a b : text) : bool :=
   match a, b with
